@@ -22,7 +22,8 @@ RULE = ('direct calls of to_unicode/from_unicode on live protocol objects '
         'customisations; values: exhaustive over the 1681 UTC offsets, all fixed-width bounds +-1, all '
         'microsecond digit-length classes; random elsewhere; literals generated from the XSD grammars. '
         'A case is non-trivial when the converter returned (no skip) and distinct by '
-        '(protocol, model configuration, direction, value class).')
+        '(protocol, model configuration, direction, value class).'
+        ' Also: zoned xs:time values, spaced base64, multi-chunk binary values; the known-finding matcher for max_str_len covers only literals with \'+\' or redundant leading zeros.')
 ASSUMPTIONS = [
     'libxml2 (lxml) is the XML Schema processor of P1; the advertised type is read from the schema spyne publishes for a holder class',
     'reference lexical model vflib/lex.py (self-tested against libxml2 at setup)',
